@@ -6,7 +6,9 @@ import random
 import vlib
 
 CH = {"a": "a", " ": " ", "&": "&", "<": "<", ">": ">", "Q": '"', "'": "'", "-": "-", "]": "]", "e": "é",
-      "N": "\n", "B": "\\", "n": "n"}
+      "N": "\n", "B": "\\", "n": "n",
+      # the four characters & l t ; as the author's text (not a reference to "<")
+      "E": "&lt;"}
 
 
 def conc(s):
